@@ -114,6 +114,12 @@ func genBatch(r *rand.Rand, mode string) (BatchCfg, *BatchScript) {
 		c.Via = "builder"
 		c.WarmN = 1 + r.Intn(4) // ... and with another retry budget
 		pFail = 0
+	case "erritems": // some items are error Results already when prep returns them; every item has a retry budget above one
+		c.C = []int{0, 2, 3}[r.Intn(3)]
+		c.Items = 3 + r.Intn(4)
+		c.N, c.Fb, c.StopMode, c.Sched, c.Shape, c.ExSty = 2+r.Intn(2), false, false, "random", "results", "r"
+		c.Via = []string{"builder", "node"}[r.Intn(2)]
+		pFail = 0.3
 	case "rerunstop": // the node object was used before with four workers; now one worker, stop on error, a slow failing first item
 		c.C, c.WarmC, c.Items = 1, 4, 6+r.Intn(4)
 		c.N, c.W, c.Fb, c.StopMode, c.Sched, c.Via, c.Shape = 1, 4, false, true, "hold", "builder", "results"
@@ -280,6 +286,13 @@ func genBatch(r *rand.Rand, mode string) (BatchCfg, *BatchScript) {
 	if (mode == "continue" || mode == "stop") && c.Shape == "results" && c.Items > 1 && r.Intn(4) == 0 {
 		c.NilItem = 1 + r.Intn(c.Items)
 	}
+	if mode == "erritems" {
+		for i := 1; i <= c.Items; i++ {
+			if r.Intn(3) == 0 || (i == c.Items && len(c.ErrItems) == 0) {
+				c.ErrItems = append(c.ErrItems, i)
+			}
+		}
+	}
 	if (mode == "continue" || mode == "stop") && c.Shape == "results" && c.ExSty == "r" && !c.Fb && c.Items > 0 && c.NilItem == 0 && r.Intn(2) == 0 {
 		// some items are error Results already when prep returns them
 		for i := 1; i <= c.Items; i++ {
@@ -399,6 +412,12 @@ func init() {
 			}
 			r := rand.New(rand.NewSource(seed*7919 + int64(mi)))
 			n := count
+			if mode == "erritems" {
+				n = 10
+				if count > 500 {
+					n = 120
+				}
+			}
 			if mode == "rerunstop" {
 				n = 6
 				if count > 500 {
